@@ -83,6 +83,10 @@ def run(chk):
         "hand-written models coq/Model/CompactMap.v and coq/Model/StateModel.v (tied by these correspondence runs), "
         "specification coq/Model/StateModelSpec.v and the judgement of operations in coq/Model/StateModelRun.v",
         "C09's unit table coq/Gen/UnitTables.v (regenerated from the Rust unit files by the translator on every run)",
+        "translator/tr_statefeature.py + translator/rsparse.py (the variants of StateFeature, CustomFeatureFormat, UpdateOperation and "
+        "the arms of encode_* / decode_* / initial, PartialEq::eq, get_feature_type, get_initial, get_*_unit, "
+        "get_custom_feature_format, perform_operation compiled to coq/Gen/StateFeature.v on every run; fails closed; "
+        "coq/Props/GenStateFeature.v proves Model/StateModel.v equal to them for all inputs, so a misreading shows up in the state stream)",
         "std::collections::HashMap specified as a finite map with unspecified iteration order",
         "serde: the models take parsed features; every configured feature and query override of the run is serialised "
         "by serde from the declared feature and parsed back by the real code, so a feature parsed as something else "
@@ -106,7 +110,18 @@ def run(chk):
         chk.violation("broken-correspondence", "translator", {"translator": "tr_units", "error": tres.get("msg")},
                       tres.get("msg"), "the unit sources have the shape the translator knows",
                       detail="coq/Gen/UnitTables.v could not be regenerated (see property C09)", found=False, key="translator")
-    chk.proofs(extra_targets=["Model/CompactMapRun.vo", "Model/StateModelRun.vo"])
+    # Gen/StateFeature.v: the variants of StateFeature / CustomFeatureFormat / UpdateOperation and the arms of their encode / decode /
+    # initial / equality / unit accessors are regenerated from the Rust source; Props/GenStateFeature.v proves Model/StateModel.v
+    # equal to them for all inputs
+    fres = vf.run_translators(which=["statefeature"]).get("statefeature", {"ok": False, "msg": "translator module tr_statefeature.py missing"})
+    chk.coverage["translator"] = {"statefeature": {k: fres.get(k) for k in ("ok", "msg", "digest", "files", "changed")}}
+    if not fres.get("ok"):
+        chk.violation("broken-correspondence", "translator", {"translator": "tr_statefeature", "error": fres.get("msg")},
+                      fres.get("msg"), "model/state/{custom_feature_format,state_feature,update_operation}.rs and "
+                      "model/traversal/state/state_variable.rs have the shape the translator knows (fail closed)",
+                      detail="coq/Gen/StateFeature.v could not be regenerated; the previous definitions (if any) are used below",
+                      found=False, key="translator-statefeature")
+    chk.proofs(extra_targets=["Model/CompactMapRun.vo", "Model/StateModelRun.vo"], extra_props=["Props/GenStateFeature.v"])
     binp = vf.build_harness("c11")
     only = replay_stream(chk)
     quick = chk.tier == "quick"
